@@ -560,3 +560,38 @@ Theorem C05_consuming_reader_refuted :
             [ORead (fst c1) (Some req); ORead (fst c1) (Some req)] = true.
 Proof. exact consuming_reader_refuted. Qed.
 Print Assumptions C05_consuming_reader_refuted.
+
+(* ================== the codec as a state machine; codes are injective ================== *)
+
+(* encode refuses encoded data and recode refuses decoded data, at every point of the
+   encode -> recode cycle (ValueError "already been encoded" / "already been recoded") *)
+Theorem C05_codec_state_guard :
+  forall d given st',
+  encode given (mkbp d None) = Ok st' ->
+  (forall g2, encode g2 st' = Err E_Value) /\
+  recode (mkbp d None) = Err E_Value /\
+  (forall st'', recode st' = Ok st'' -> blabels st'' = None /\ recode st'' = Err E_Value).
+Proof. exact codec_state_guard. Qed.
+Print Assumptions C05_codec_state_guard.
+
+(* two different labels of the data never share a code, and every code fits np.uint8 - so a
+   query on encoded data (C05_encoded_lookup_commutes) identifies the label it stands for *)
+Theorem C05_encode_codes_injective :
+  forall d given st',
+  (match given with Some g => NoDup g | None => True end) ->
+  encode given (mkbp d None) = Ok st' ->
+  exists labels, blabels st' = Some labels /\
+    NoDup (map fst labels) /\ NoDup (map snd labels) /\
+    (forall p, In p (pops_of d) -> 0 <= code_of labels p <= 255) /\
+    (forall p q, In p (pops_of d) -> In q (pops_of d) ->
+                 code_of labels p = code_of labels q -> p = q).
+Proof. exact encode_codes_injective. Qed.
+Print Assumptions C05_encode_codes_injective.
+
+Theorem C05_encode_codes_injective_example :
+  let d := [(0, ([mkseg 7 1 10122 3], [mkseg 8 1 10115 0; mkseg 7 1 10116 1; mkseg 9 1 10120 2]))] in
+  exists st', encode (Some [9; 8; 7]) (mkbp d None) = Ok st' /\
+              map (code_of (match blabels st' with Some l => l | None => [] end)) [7; 8; 9] = [2; 1; 0] /\
+              encode None st' = Err E_Value.
+Proof. exact encode_codes_injective_example. Qed.
+Print Assumptions C05_encode_codes_injective_example.
